@@ -130,12 +130,270 @@ Definition nest (k : N) (pat tail : bytes) : bytes := concat (repeat pat (N.to_n
 (* ---------- printing (used only by the correspondence runs) ---------- *)
 From Coq Require Import Ascii String DecimalString.
 Open Scope string_scope.
-Definition hex_digit (n : N) : ascii :=
-  ascii_of_N (if (n <? 10)%N then 48 + n else 87 + n)%N.
+Definition hex_byte (b : N) : string :=
+  match b with
+  | 0%N => "00"
+  | 1%N => "01"
+  | 2%N => "02"
+  | 3%N => "03"
+  | 4%N => "04"
+  | 5%N => "05"
+  | 6%N => "06"
+  | 7%N => "07"
+  | 8%N => "08"
+  | 9%N => "09"
+  | 10%N => "0a"
+  | 11%N => "0b"
+  | 12%N => "0c"
+  | 13%N => "0d"
+  | 14%N => "0e"
+  | 15%N => "0f"
+  | 16%N => "10"
+  | 17%N => "11"
+  | 18%N => "12"
+  | 19%N => "13"
+  | 20%N => "14"
+  | 21%N => "15"
+  | 22%N => "16"
+  | 23%N => "17"
+  | 24%N => "18"
+  | 25%N => "19"
+  | 26%N => "1a"
+  | 27%N => "1b"
+  | 28%N => "1c"
+  | 29%N => "1d"
+  | 30%N => "1e"
+  | 31%N => "1f"
+  | 32%N => "20"
+  | 33%N => "21"
+  | 34%N => "22"
+  | 35%N => "23"
+  | 36%N => "24"
+  | 37%N => "25"
+  | 38%N => "26"
+  | 39%N => "27"
+  | 40%N => "28"
+  | 41%N => "29"
+  | 42%N => "2a"
+  | 43%N => "2b"
+  | 44%N => "2c"
+  | 45%N => "2d"
+  | 46%N => "2e"
+  | 47%N => "2f"
+  | 48%N => "30"
+  | 49%N => "31"
+  | 50%N => "32"
+  | 51%N => "33"
+  | 52%N => "34"
+  | 53%N => "35"
+  | 54%N => "36"
+  | 55%N => "37"
+  | 56%N => "38"
+  | 57%N => "39"
+  | 58%N => "3a"
+  | 59%N => "3b"
+  | 60%N => "3c"
+  | 61%N => "3d"
+  | 62%N => "3e"
+  | 63%N => "3f"
+  | 64%N => "40"
+  | 65%N => "41"
+  | 66%N => "42"
+  | 67%N => "43"
+  | 68%N => "44"
+  | 69%N => "45"
+  | 70%N => "46"
+  | 71%N => "47"
+  | 72%N => "48"
+  | 73%N => "49"
+  | 74%N => "4a"
+  | 75%N => "4b"
+  | 76%N => "4c"
+  | 77%N => "4d"
+  | 78%N => "4e"
+  | 79%N => "4f"
+  | 80%N => "50"
+  | 81%N => "51"
+  | 82%N => "52"
+  | 83%N => "53"
+  | 84%N => "54"
+  | 85%N => "55"
+  | 86%N => "56"
+  | 87%N => "57"
+  | 88%N => "58"
+  | 89%N => "59"
+  | 90%N => "5a"
+  | 91%N => "5b"
+  | 92%N => "5c"
+  | 93%N => "5d"
+  | 94%N => "5e"
+  | 95%N => "5f"
+  | 96%N => "60"
+  | 97%N => "61"
+  | 98%N => "62"
+  | 99%N => "63"
+  | 100%N => "64"
+  | 101%N => "65"
+  | 102%N => "66"
+  | 103%N => "67"
+  | 104%N => "68"
+  | 105%N => "69"
+  | 106%N => "6a"
+  | 107%N => "6b"
+  | 108%N => "6c"
+  | 109%N => "6d"
+  | 110%N => "6e"
+  | 111%N => "6f"
+  | 112%N => "70"
+  | 113%N => "71"
+  | 114%N => "72"
+  | 115%N => "73"
+  | 116%N => "74"
+  | 117%N => "75"
+  | 118%N => "76"
+  | 119%N => "77"
+  | 120%N => "78"
+  | 121%N => "79"
+  | 122%N => "7a"
+  | 123%N => "7b"
+  | 124%N => "7c"
+  | 125%N => "7d"
+  | 126%N => "7e"
+  | 127%N => "7f"
+  | 128%N => "80"
+  | 129%N => "81"
+  | 130%N => "82"
+  | 131%N => "83"
+  | 132%N => "84"
+  | 133%N => "85"
+  | 134%N => "86"
+  | 135%N => "87"
+  | 136%N => "88"
+  | 137%N => "89"
+  | 138%N => "8a"
+  | 139%N => "8b"
+  | 140%N => "8c"
+  | 141%N => "8d"
+  | 142%N => "8e"
+  | 143%N => "8f"
+  | 144%N => "90"
+  | 145%N => "91"
+  | 146%N => "92"
+  | 147%N => "93"
+  | 148%N => "94"
+  | 149%N => "95"
+  | 150%N => "96"
+  | 151%N => "97"
+  | 152%N => "98"
+  | 153%N => "99"
+  | 154%N => "9a"
+  | 155%N => "9b"
+  | 156%N => "9c"
+  | 157%N => "9d"
+  | 158%N => "9e"
+  | 159%N => "9f"
+  | 160%N => "a0"
+  | 161%N => "a1"
+  | 162%N => "a2"
+  | 163%N => "a3"
+  | 164%N => "a4"
+  | 165%N => "a5"
+  | 166%N => "a6"
+  | 167%N => "a7"
+  | 168%N => "a8"
+  | 169%N => "a9"
+  | 170%N => "aa"
+  | 171%N => "ab"
+  | 172%N => "ac"
+  | 173%N => "ad"
+  | 174%N => "ae"
+  | 175%N => "af"
+  | 176%N => "b0"
+  | 177%N => "b1"
+  | 178%N => "b2"
+  | 179%N => "b3"
+  | 180%N => "b4"
+  | 181%N => "b5"
+  | 182%N => "b6"
+  | 183%N => "b7"
+  | 184%N => "b8"
+  | 185%N => "b9"
+  | 186%N => "ba"
+  | 187%N => "bb"
+  | 188%N => "bc"
+  | 189%N => "bd"
+  | 190%N => "be"
+  | 191%N => "bf"
+  | 192%N => "c0"
+  | 193%N => "c1"
+  | 194%N => "c2"
+  | 195%N => "c3"
+  | 196%N => "c4"
+  | 197%N => "c5"
+  | 198%N => "c6"
+  | 199%N => "c7"
+  | 200%N => "c8"
+  | 201%N => "c9"
+  | 202%N => "ca"
+  | 203%N => "cb"
+  | 204%N => "cc"
+  | 205%N => "cd"
+  | 206%N => "ce"
+  | 207%N => "cf"
+  | 208%N => "d0"
+  | 209%N => "d1"
+  | 210%N => "d2"
+  | 211%N => "d3"
+  | 212%N => "d4"
+  | 213%N => "d5"
+  | 214%N => "d6"
+  | 215%N => "d7"
+  | 216%N => "d8"
+  | 217%N => "d9"
+  | 218%N => "da"
+  | 219%N => "db"
+  | 220%N => "dc"
+  | 221%N => "dd"
+  | 222%N => "de"
+  | 223%N => "df"
+  | 224%N => "e0"
+  | 225%N => "e1"
+  | 226%N => "e2"
+  | 227%N => "e3"
+  | 228%N => "e4"
+  | 229%N => "e5"
+  | 230%N => "e6"
+  | 231%N => "e7"
+  | 232%N => "e8"
+  | 233%N => "e9"
+  | 234%N => "ea"
+  | 235%N => "eb"
+  | 236%N => "ec"
+  | 237%N => "ed"
+  | 238%N => "ee"
+  | 239%N => "ef"
+  | 240%N => "f0"
+  | 241%N => "f1"
+  | 242%N => "f2"
+  | 243%N => "f3"
+  | 244%N => "f4"
+  | 245%N => "f5"
+  | 246%N => "f6"
+  | 247%N => "f7"
+  | 248%N => "f8"
+  | 249%N => "f9"
+  | 250%N => "fa"
+  | 251%N => "fb"
+  | 252%N => "fc"
+  | 253%N => "fd"
+  | 254%N => "fe"
+  | 255%N => "ff"
+  | _ => "??"
+  end.
 Fixpoint hex_of (l : bytes) : string :=
   match l with
   | [] => EmptyString
-  | b :: l' => String (hex_digit (b / 16)%N) (String (hex_digit (b mod 16)%N) (hex_of l'))
+  | b :: l' => hex_byte b ++ hex_of l'
   end.
 Definition show_N (n : N) : string := NilZero.string_of_uint (N.to_uint n).
 Definition blob_hash (l : bytes) : N := fold_left (fun h b => (h * 31 + b) mod 4294967296)%N l 0%N.
